@@ -481,3 +481,36 @@ def wild_script(rng: random.Random) -> str:
     for _ in range(rng.randint(1, 6)):
         lines += stmt(1)
     return PREAMBLE + "\n".join(lines) + "\n"
+
+
+def padded_statement(rng: random.Random) -> str:
+    """A device statement with a very long run of one blank / separator character somewhere in it, with or
+    without its closing parenthesis: pattern matching must stay (close to) linear in the line length."""
+
+    stmt = rng.choice([
+        "led.on()", "led.set_brightness(5)", "led.blink(100, 3)", "rgb.set_color(1, 2, 3)", "sv.write(90)", "mon.write(x)",
+        'mon.write("text")', "bz.beep(440)", "m.ramp(0.5, 100)", 'lcd.write(0, 0, "x")', "lcd.progress(0, 5)", 'lcd.animate("scroll", 0, "x")',
+        "led2 = Led(13)", "u = Ultrasonic(1, 2)", "btn = Button(2)", "sleep(5)", "for i in range(3):\n    pass", "if x:\n    pass", "x = 1", 'target("COM3")',
+    ])
+    n = rng.choice([800, 3000, 6000, 12000])
+    filler = rng.choice([" ", " ", "\t", "\x0c", "\xa0", "\x1f", " \t", ", ", "( ", ") ", " = ", "\\ "]) * (n // 2 if rng.random() < 0.3 else n)
+    first = stmt.split("\n")[0]
+    rest = stmt[len(first):]
+    where = rng.choice(["after_open", "before_close", "tail", "middle", "no_close", "in_string"])
+    if where == "after_open" and "(" in first:
+        i = first.index("(") + 1
+        line = first[:i] + filler + first[i:]
+    elif where == "before_close" and ")" in first:
+        i = first.rindex(")")
+        line = first[:i] + filler + first[i:]
+    elif where == "middle":
+        i = rng.randrange(len(first) + 1)
+        line = first[:i] + filler + first[i:]
+    elif where == "no_close" and "(" in first:
+        i = first.index("(") + 1
+        line = first[:i] + filler + rng.choice(["x", "5", ""])
+    elif where == "in_string":
+        line = 'mon.write("' + filler + rng.choice(['")', '"', ""])
+    else:
+        line = first + filler + rng.choice(["", "x", "# c"])
+    return PREAMBLE + line + rest + "\n"
